@@ -8,7 +8,7 @@ type Mutant struct {
 	Property   string
 	File       string // relative to the repository root
 	Old, New   string
-	Old2, New2 string // optional second spot in the same file
+	Old2, New2 string      // optional second spot in the same file
 	More       [][2]string // further (old, new) spots in the same file
 	Rule       string
 	Construct  string // substring of the construct key that must be reported
